@@ -23,7 +23,7 @@ RULE = (
     "layer 2: every (branch subset, tag subset, version) of a smaller universe on a real local git repository through "
     "RallyRepository.update; layer 3: every non-empty subset of remote branch names (incl. namespaced names such as "
     "users/jdoe/8.3) x versions on an origin + clone pair. A case is non-trivial when at least one versioned branch of the version's major is present; "
-    "layer 4 (histories, same reference): local repository reused for two runs (every subset of {master, 7, 7.17, 8} x every ordered pair of 4 versions); "
+    "layer 4 (histories, same reference): local repository reused for two runs (every subset of {master, 7, 7.17, 8} x every ordered pair of 4 versions, the second run also for an unknown version); "
     "managed clone reused while upstream changes its branch set between the runs (every pair of non-empty subsets of {master, 8, 8.5, 8.6} x versions). "
     "distinct = distinct (branch set, version)."
 )
@@ -419,7 +419,7 @@ def _history_cases(tier):
     for mask in range(1, 1 << n):
         br = [HIST_LOCAL_BRANCHES[i] for i in range(n) if mask >> i & 1]
         for v1 in HIST_LOCAL_VERSIONS:
-            for v2 in HIST_LOCAL_VERSIONS:
+            for v2 in HIST_LOCAL_VERSIONS + [None]:  # None: the second race runs an Elasticsearch of unknown version (e.g. built from sources)
                 out.append(("local", br, v1, v2))
     n = len(HIST_REMOTE_BRANCHES)
     for m1 in range(1, 1 << n):
@@ -427,7 +427,8 @@ def _history_cases(tier):
         for m2 in range(1, 1 << n):
             b2 = [HIST_REMOTE_BRANCHES[i] for i in range(n) if m2 >> i & 1]
             for v1 in HIST_REMOTE_VERSIONS if tier == "thorough" else HIST_REMOTE_VERSIONS[:1]:
-                for v2 in HIST_REMOTE_VERSIONS:
+                # (unknown version only while upstream still has master: without it the run falls under the recorded local-fallback finding)
+                for v2 in HIST_REMOTE_VERSIONS + ([None] if "master" in b2 else []):
                     out.append(("remote", b1, v1, b2, v2))
     return out
 
